@@ -1,20 +1,21 @@
 /* UNIT
 {
  "id": "SCAN.loc.newline",
- "file": "scan.c", "function": "scankind", "also_functions": ["comment", "op2", "op3", "op4"],
+ "file": "scan.c", "function": "scankind", "also_functions": ["op2", "op3", "op4"],
  "properties": {"C11": "contract", "C13": "contract", "C19": "safety"},
  "mode": "harness", "post_macro": "POST_LOC",
  "replace_calls": {"nextchar": "nextchar_abs", "ghost_ungetc": "ungetc_abs", "stringlit": "stub_stringlit",
-                   "charconst": "stub_charconst", "ident": "stub_ident", "number": "stub_number"},
+                   "charconst": "stub_charconst", "ident": "stub_ident", "number": "stub_number", "comment": "comment_spec"},
  "kind": "bounded",
- "bound": "files of at most 8 logical characters (all byte values), each preceded by 0 or 1 backslash-newline pair: at most 3 separators (blank, // comment, block comment, in any order) in front of the token; scankind's skip loop unwound 4 times, comment()'s loops 10 times",
- "unwindset": ["scankind.0:4", "comment.0:10", "comment.1:10"],
+ "bound": "files of at most 8 logical characters (all byte values), each preceded by 0 or 1 backslash-newline pair: at most 3 separators (blank, // comment, block comment, in any order) in front of the token; scankind's skip loop unwound 4 times",
+ "unwindset": ["scankind.0:4"],
  "cflags": ["-DG_IN_MAX=40", "-DVERIF_OWN_XMALLOC"],
  "stubs": ["base.c", "ghost_stdio.c"],
  "cbmc_flags": ["--drop-unused-functions"],
  "timeout": 300,
  "expects": ["assertion_verif"],
  "assumes": ["nextchar/ungetc are taken by their logical stand-ins nextchar_abs/ungetc_abs (SCAN.nextchar + SCAN.nextchar.abs prove the real nextchar refines the former)",
+             "comment() is taken by its stand-in comment_spec (SCAN.comment proves the real one refines it)",
              "the literal, identifier and number scanners are cut off at their entry (SCAN.number, SCAN.ident)",
              "EXPECTED TO FAIL on the pinned tree (finding): only inputs whose first token is the new-line token; nextchar() moves s->loc to the next line (column 0) when it READS the new-line, and scankind copies that as the location of the new-line token, so e.g. the diagnostic for a bare #define on line 2 says <stdin>:3:0",
              "the spelling buffer already has its initial capacity (scan_common.h GS_SMALL_TOKENS)",
@@ -45,7 +46,7 @@ harness(void)
 	gs_build(in_m);
 	__CPROVER_assume(gs_canonical());
 	g_pl0 = in_line; g_pc0 = in_col;
-	loc_tables();
+	gs_abs_tables();
 	s = gs_scanner_at0(in_saw, true, false, g_pl0 + (g_L[0] == '\n'), g_L[0] == '\n' ? 0 : g_pc0);
 	g_saw0 = s->sawspace; g_file0 = s->loc.file;
 	g_T = loc_T();
